@@ -685,6 +685,10 @@ def e2e(chk, mods):
             c['org'] = max(c['org'], c['clear'] + 1) if c['org'] > c['clear'] else c['org']
             if c['org'] + c['len'] > 65536:
                 continue
+            # the length was overridden above: the block must still lie wholly above CLEAR or well below the
+            # BASIC stack under it (a block across RAMTOP overwrites the loader's own stack: invalid input)
+            if not (c['org'] > c['clear'] or c['org'] + c['len'] + 300 <= c['clear']):
+                continue
         if (c['start'] or c['org']) < 23760:
             c['start'] = 32768
         go(c, 'e2e48-slow-python')
